@@ -249,6 +249,7 @@ Proof.
     by auto with exdb.
   destruct rows as [|r0 rr].
   - destruct sel as [y|]; [|inversion H; apply ex_nil].
+    destruct (negb (is_qsel y)); [discriminate H|].
     destruct (Nat.eqb (nselects y) 0); [inversion H; apply ex_nil|]. inv_bind H.
     match goal with E : qt _ _ _ _ _ _ _ = Ok ?s |- _ =>
       assert (ex v s) by (eapply Hqt; [| |exact E]; cbn [kc with_c mk_k]; [apply k_ok_with_c; exact Hkb|exact Hbase]) end.
@@ -546,6 +547,7 @@ Proof.
     abl ltac:(apply agr_of_eq, (proj1 (proj2 ttoks_erase_all)); auto with exdb). fin_ok.
   - intros cols cols' Hc. destruct rows as [|r0 rr].
     + destruct sel as [y|]; [|apply agr_ok; reflexivity].
+      destruct (negb (is_qsel y)); [apply agr_err_l|].
       destruct (Nat.eqb (nselects y) 0); [apply agr_ok; reflexivity|].
       ab ltac:(apply Rqt; [cbn [kc with_c mk_k]; auto with exdb|reflexivity]).
       * apply agr_ok.
